@@ -151,7 +151,11 @@ def oblige_equal(ctx, name, a, b, kind='ensures'):
         sum_zero(ctx, name, S.sub(a, b), kind)
         return
     if S.is_scalar(a) and S.is_scalar(b):
-        ctx.oblige(name, S.eq(a, b), kind)
+        if (isinstance(a, S.Cx) or isinstance(b, S.Cx) or S.is_real(S.num(a)) or S.is_real(S.num(b))) \
+                and not (S.is_bool(a) or S.is_bool(b)) and S.TOL is None:
+            oblige_scalar_zero(ctx, name, S.sub(a, b), kind)
+        else:
+            ctx.oblige(name, S.eq(a, b), kind)
         return
     if isinstance(a, (tuple, PyList)) and isinstance(b, (tuple, PyList)):
         xs = a.items if isinstance(a, PyList) else list(a)
@@ -257,7 +261,7 @@ def expand_sums(ctx, d, budget=20000):
         return None
 
 
-_TRIG = ('cos', 'sin', 'exp', 'sinc', 'sqrt')
+_TRIG = ('f_cos', 'f_sin', 'f_exp', 'f_sinc', 'f_sqrt')
 
 
 def term_equal(ctx, t1, t2, depth=0):
@@ -295,41 +299,47 @@ def term_equal(ctx, t1, t2, depth=0):
 
 
 def canon_trig(ctx, exprs):
-    """Rewrite the arguments of cos/sin/exp/sqrt/sinc applications that are provably equal under the
-    path condition to one representative (the solver does not find such nonlinear equalities by
-    itself).  Sound: every substitution is backed by a decided equality."""
-    apps = []
-    seen = set()
-
-    def walk(e):
-        if e.get_id() in seen:
-            return
-        seen.add(e.get_id())
-        if z3.is_app(e):
-            for ch in e.children():
-                walk(ch)
-            if e.num_args() == 1 and e.decl().kind() == z3.Z3_OP_UNINTERPRETED and e.decl().name() in _TRIG:
-                apps.append(e)
+    """Rewrite applications of uninterpreted functions (array element functions, cos/sin/exp/sqrt...)
+    whose arguments are provably equal under the path condition to one representative, innermost first
+    (the solver does not find such equalities inside nonlinear products by itself).
+    Sound: every substitution is backed by a decided equality."""
     zs = [x for x in exprs if S.is_z3(x)]
-    for e in zs:
-        walk(e)
-    if len(apps) < 2:
+    if not zs:
         return exprs
-    reps = []       # representative argument terms
-    subst = []
-    for a in apps:
-        arg = a.arg(0)
-        for r in reps:
-            if r.eq(arg):
-                break
-            if term_equal(ctx, arg, r):
-                subst.append((a, a.decl()(r)))
-                break
-        else:
-            reps.append(arg)
-    if not subst:
-        return exprs
-    return [z3.substitute(x, *subst) if S.is_z3(x) else x for x in exprs]
+    for _round in range(3):
+        apps = []
+        seen = set()
+
+        def walk(e):
+            if e.get_id() in seen:
+                return
+            seen.add(e.get_id())
+            if z3.is_app(e):
+                for ch in e.children():
+                    walk(ch)
+                if e.num_args() >= 1 and e.decl().kind() == z3.Z3_OP_UNINTERPRETED:
+                    apps.append(e)
+        for e in exprs:
+            if S.is_z3(e):
+                walk(e)
+        if len(apps) < 2 or len(apps) > 60:
+            return exprs
+        reps = {}
+        subst = []
+        for a in apps:
+            key = a.decl().name()
+            for r in reps.setdefault(key, []):
+                if r.eq(a):
+                    break
+                if all(term_equal(ctx, x, y) for x, y in zip(a.children(), r.children())):
+                    subst.append((a, r))
+                    break
+            else:
+                reps[key].append(a)
+        if not subst:
+            return exprs
+        exprs = [z3.substitute(x, *subst) if S.is_z3(x) else x for x in exprs]
+    return exprs
 
 
 def oblige_scalar_zero(ctx, name, d, kind):
@@ -573,62 +583,68 @@ class Verdict:
         self.reason = reason
 
 
-def discharge(ob, timeout_ms=10000, use_cvc5=False):
-    t0 = time.time()
-    s = z3.Solver()
-    s.set('timeout', timeout_ms)
-    for p in ob.pc:
-        s.add(p)
-    s.add(z3.Not(ob.formula))
-    r = s.check()
-    dt = time.time() - t0
-    if r == z3.unsat:
-        return Verdict(ob, 'discharged', solver='z3', time_s=dt)
-    if r == z3.sat:
-        m = s.model()
-        # prefer a small counter-model (replayable): bound every integer constant
-        consts = [d() for d in m.decls() if d.arity() == 0 and d.range() == z3.IntSort()]
-        rconsts = [d() for d in m.decls() if d.arity() == 0 and d.range() == z3.RealSort() and d.name() != 'pi']
-        q = z3.RealVal('1/4')
-        for B, nice in ((3, True), (6, True), (12, True), (3, False), (6, False), (12, False), (40, False)):
-            s.push()
-            s.set('timeout', 2000)
-            for cst in consts:
-                s.add(cst >= -B, cst <= B)
-            if nice:        # well-scaled reals replay robustly against float tolerance
-                for cst in rconsts:
-                    s.add(cst <= B, cst >= -B, z3.Or(cst == 0, cst >= q, cst <= -q))
+def _small_model(s, m):
+    """Prefer a small, well-scaled counter-model (replayable against float tolerance)."""
+    consts = [d() for d in m.decls() if d.arity() == 0 and d.range() == z3.IntSort()]
+    rconsts = [d() for d in m.decls() if d.arity() == 0 and d.range() == z3.RealSort() and d.name() != 'pi']
+    q = z3.RealVal('1/4')
+    for B, nice in ((3, True), (6, True), (12, True), (3, False), (6, False), (12, False), (40, False)):
+        s.push()
+        s.set('timeout', 2000)
+        for cst in consts:
+            s.add(cst >= -B, cst <= B)
+        if nice:
+            for cst in rconsts:
+                s.add(cst <= B, cst >= -B, z3.Or(cst == 0, cst >= q, cst <= -q))
+        try:
             if s.check() == z3.sat:
                 m = s.model()
                 s.pop()
                 break
-            s.pop()
-        model = {}
-        for d in m.decls():
-            if d.arity() == 0:
-                model[d.name()] = str(m[d])
-        return Verdict(ob, 'failed', model=model, solver='z3', time_s=dt, z3model=m)
-    # unknown: retry with polynomial normalisation (sum of monomials), then other tactic sets
-    for tac in ('som', 'qfnra-nlsat', 'smt'):
-        try:
-            if tac == 'som':
-                s2 = z3.Then(z3.With('simplify', som=True, hoist_mul=False), 'smt').solver()
-            else:
-                s2 = z3.Tactic(tac).solver()
-            s2.set('timeout', timeout_ms)
-            for p in ob.pc:
-                s2.add(p)
-            s2.add(z3.Not(ob.formula))
-            r2 = s2.check()
-            if r2 == z3.unsat:
-                return Verdict(ob, 'discharged', solver='z3:' + tac, time_s=time.time() - t0)
-            if r2 == z3.sat:
-                m = s2.model()
-                model = {d.name(): str(m[d]) for d in m.decls() if d.arity() == 0}
-                return Verdict(ob, 'failed', model=model, solver='z3:' + tac, time_s=time.time() - t0, z3model=m)
         except z3.Z3Exception:
             pass
-    return Verdict(ob, 'undecided', solver='z3', time_s=time.time() - t0, reason=str(s.reason_unknown()))
+        s.pop()
+    return m
+
+
+SMALL_MODELS = True      # switched off by the runner after a few failures in one work item
+
+
+_STRATEGIES = [
+    ('z3', None, 3000),
+    ('z3:elim-term-ite+som', lambda: z3.Then('simplify', 'elim-term-ite', z3.With('simplify', som=True), 'smt'), None),
+    ('z3:purify-arith', lambda: z3.Then('simplify', 'purify-arith', 'smt'), None),
+    ('z3:som', lambda: z3.Then(z3.With('simplify', som=True, hoist_mul=False), 'smt'), None),
+    ('z3', None, None),
+]
+
+
+def discharge(ob, timeout_ms=10000, use_cvc5=False, quick=False):
+    """unsat -> discharged; sat -> failed (with a counter-model); otherwise the next strategy is tried
+    (different preprocessing exposes different proofs of the nonlinear obligations); all unknown -> undecided."""
+    t0 = time.time()
+    reason = None
+    for name, mk, tmo in (_STRATEGIES[:1] if quick else _STRATEGIES):
+        try:
+            s = z3.Solver() if mk is None else mk().solver()
+            s.set('timeout', min(tmo, timeout_ms) if tmo else timeout_ms)
+            for p in ob.pc:
+                s.add(p)
+            s.add(z3.Not(ob.formula))
+            r = s.check()
+        except z3.Z3Exception as e:
+            reason = str(e)
+            continue
+        if r == z3.unsat:
+            return Verdict(ob, 'discharged', solver=name, time_s=time.time() - t0)
+        if r == z3.sat:
+            m = s.model()
+            if mk is None and not quick and SMALL_MODELS:
+                m = _small_model(s, m)
+            model = {d.name(): str(m[d]) for d in m.decls() if d.arity() == 0}
+            return Verdict(ob, 'failed', model=model, solver=name, time_s=time.time() - t0, z3model=m)
+        reason = str(s.reason_unknown())
+    return Verdict(ob, 'undecided', solver='z3', time_s=time.time() - t0, reason=reason)
 
 
 def run_lemma(ctx, lemma):
